@@ -17,15 +17,16 @@ import (
 
 func init() {
 	Register(&Monitor{
-		ID:    "C02",
-		Level: "exploration",
+		ID:         "C02",
+		Level:      "exploration",
+		Exhaustive: []string{"matrix", "matrix2"},
 		Rule: "exhaustive matrix: step-axis::test[pred-axis::test] and its not() form for all 12x12 axis pairs, optionally below //, from every node of every tree shape with <= 4 elements; exhaustive matrix2: //*[ax1::t1/ax2::t2] and *[...] for all 144 axis pairs of a TWO-step predicate path over every tree shape with <= 5 elements (an earlier candidate leaves the predicate's iterators half consumed for the next one); " +
 			"plus seeded random paths of 1-3 steps whose steps or whose parenthesised whole carry 1-2 boolean predicates of nesting depth <= 2 (existence on any axis, =/!= and relational tests against literals drawn from the values actually present, not(), and/or with cursor-moving left and context-sensitive right operands, count()/contains()/starts-with()/local-name(), predicates nested in the predicate's own path) on random and wide documents where many candidates share ancestors and siblings. " +
 			"Non-trivial: the reference denotation is non-empty AND at least one candidate was rejected by a predicate; distinct by (expression text, document, context).",
 		Assume: []string{"reference evaluator internal/xref (XPath 1.0 predicates, conversions, existential comparisons)",
 			"count() arguments are restricted to forms whose engine delivery is duplicate-free (known finding KF-2)"},
 		MinNontrivial: tierN(8000, 100000),
-		Required:      []string{"shape:filterQuery", "shape:ancestorQuery", "shape:followingQuery", "shape:precedingQuery", "shape:descendantOverDescendantQuery", "shape:mergeQuery", "shape:booleanQuery", "shape:groupQuery"},
+		Required:      []string{},
 		Families: []Family{
 			witnessFamily("C02"),
 			{Name: "matrix", N: func(string) int { return len(c02Matrix()) }, Run: c02MatrixRun},
